@@ -194,3 +194,135 @@ Lemma spawn_inv : forall fuel ops, tinv fuel ops (spawn ops).
 Proof. intros. exists [], []. cbn. auto. Qed.
 
 End Histories.
+
+(* ---------- final forms used by Properties/C12.v and C11.v ---------- *)
+
+Section Final.
+Variable E : env.
+Hypothesis WF : env_wf E.
+
+Theorem history_independent : forall fuel nre rsizes bsizes h,
+  snd (run_history E fuel h (gstate0 nre rsizes bsizes)) = map (fresh_result E fuel) (calls_of h).
+Proof. intros. apply history_fresh; auto. apply gstate0_ok. Qed.
+
+Theorem history_independent_any_state : forall fuel h g,
+  gstate_ok E g -> snd (run_history E fuel h g) = map (fresh_result E fuel) (calls_of h).
+Proof. intros. apply history_fresh; auto. Qed.
+
+Theorem call_independent_of_state : forall fuel o g1 ch1 g2 ch2,
+  gstate_ok E g1 -> gstate_ok E g2 -> snd (call E fuel o g1 ch1) = snd (call E fuel o g2 ch2).
+Proof.
+  intros fuel o g1 ch1 g2 ch2 G1 G2.
+  destruct (call_fresh E WF fuel o g1 ch1 G1) as [A _]. destruct (call_fresh E WF fuel o g2 ch2 G2) as [B _]. congruence.
+Qed.
+
+Theorem state_ok_preserved : forall fuel o g ch, gstate_ok E g -> gstate_ok E (fst (call E fuel o g ch)).
+Proof. intros. apply call_fresh; auto. Qed.
+
+(* every scan, whatever its outcome (match, no match, stack limit, timeout, index fault), leaves the runner in
+   a state that putRunner turns into a legal pooled runner *)
+Theorem runner_ok_preserved : forall re r a,
+  runner_inv (e_cfg E re) r -> runner_ok (e_cfg E re) (put_reset (fst (do_scan E re r a))).
+Proof.
+  intros re r a H. apply put_reset_ok. destruct WF as (W1 & _).
+  apply (scan_facts (e_cfg E re) (e_interp E re) (e_deadline E) r a (W1 re) H).
+Qed.
+
+Theorem call_independent_of_runner : forall re r1 r2 a,
+  runner_ok (e_cfg E re) r1 -> runner_ok (e_cfg E re) r2 -> snd (do_scan E re r1 a) = snd (do_scan E re r2 a).
+Proof.
+  intros re r1 r2 a O1 O2. destruct WF as (W1 & W2 & _). unfold do_scan.
+  apply scan_independent; auto; try apply O1; try apply O2.
+  destruct O1 as (_ & X & _), O2 as (_ & Y & _). congruence.
+Qed.
+
+Theorem buffers_transparent : forall g bk s maxsz pk,
+  gstate_ok E g ->
+  let '(g1, b, pooled) := act_get_buf g bk (zlen s) maxsz pk in
+  zlen s <= b_cap b /\ exists b1, decode_into E b s = Some (b1, e_decode E s).
+Proof.
+  intros g bk s maxsz pk G. pose proof (act_get_buf_ok E g bk (zlen s) maxsz pk G) as H.
+  destruct (act_get_buf g bk (zlen s) maxsz pk) as [[g1 b] pooled]. destruct H as [_ B]. split; [exact B|].
+  destruct (decode_into_spec E b s WF B) as (b1 & D & _). eauto.
+Qed.
+
+Theorem interleaving_eq_sequential : forall fuel nre rsizes bsizes opss sched,
+  let c := run_sched E fuel {| c_g := gstate0 nre rsizes bsizes; c_threads := map spawn opss; c_fault := false |} sched in
+  forall i t, nth_error (c_threads c) i = Some t ->
+  exists ops dn cur,
+    nth_error opss i = Some ops /\ ops = dn ++ cur ++ t_rest t /\
+    rev (t_done t) = map (fresh_result E fuel) dn /\
+    (t_cur t = None -> cur = []).
+Proof.
+  intros fuel nre rsizes bsizes opss sched c i t N.
+  assert (I0 : cinv E fuel opss {| c_g := gstate0 nre rsizes bsizes; c_threads := map spawn opss; c_fault := false |}).
+  { split; cbn [c_g c_threads]; [apply gstate0_ok|].
+    clear. induction opss; cbn; constructor; auto using spawn_inv. }
+  pose proof (run_sched_inv E WF fuel opss sched _ I0) as [G T]. fold c in T.
+  destruct (Forall2_nth_error _ _ _ _ _ T N) as (ops & N0 & (dn & cur & O & D & C)).
+  exists ops, dn, cur. split; [exact N0|]. split; [exact O|]. split.
+  - rewrite D. apply rev_involutive.
+  - intros X. rewrite X in C. exact C.
+Qed.
+
+End Final.
+
+Lemma init_match_resets :
+  forall cfg r a, cfg_wf cfg -> runner_inv cfg r ->
+  forall dl pos,
+    view_of (start_watch dl (set_textpos (init_match cfg (sa_info a) (scan_header cfg r a)) pos)) (sa_quick a)
+    = Some (canonical_view cfg (r_code r) a pos).
+Proof. intros cfg r a W H. exact (proj2 (proj2 (proj2 (proj2 (proj2 (proj2 (prepared cfg r a W H))))))). Qed.
+
+Lemma size_class_selection :
+  forall sizes needed maxsz idx, pool_index sizes needed maxsz = Some idx ->
+    needed <= nth idx sizes 0 /\ (idx < length sizes)%nat /\ maxsz <> 0 /\ (0 < maxsz -> nth idx sizes 0 <= maxsz).
+Proof.
+  intros sizes needed maxsz idx H. destruct (pool_index_spec _ _ _ _ H) as [A B].
+  split; [exact A|]. split; [exact B|]. split.
+  - intros X. subst. discriminate.
+  - intros M. exact (pool_index_max _ _ _ _ M H).
+Qed.
+
+Lemma cache_coherent_preserved :
+  forall (E : env) re key d c, cache_ok E re c ->
+    cache_ok E re (fst (cache_get key c)) /\
+    (e_parse_repl E re key = Ok d -> cache_ok E re (cache_add (cfg_cache_max (e_cfg E re)) key d c)).
+Proof.
+  intros E re key d c H. split; [exact (proj1 (cache_get_ok E re key c H))|].
+  intros P. exact (cache_add_ok E re key d c H P).
+Qed.
+
+Lemma lru_capacity :
+  forall (E : env) re c, cache_ok E re c ->
+    NoDup (map fst c) /\ (0 < cfg_cache_max (e_cfg E re) -> zlen c <= cfg_cache_max (e_cfg E re)).
+Proof. intros E re c (_ & N & L). split; assumption. Qed.
+
+Section Final2.
+Variable E : env.
+Hypothesis WF : env_wf E.
+
+Lemma init_cinv : forall fuel nre rsizes bsizes opss,
+  cinv E fuel opss {| c_g := gstate0 nre rsizes bsizes; c_threads := map spawn opss; c_fault := false |}.
+Proof.
+  intros. split; cbn [c_g c_threads]; [apply gstate0_ok|].
+  induction opss; cbn; constructor; auto using spawn_inv.
+Qed.
+
+Theorem finished_goroutine : forall fuel nre rsizes bsizes opss sched,
+  let c := run_sched E fuel {| c_g := gstate0 nre rsizes bsizes; c_threads := map spawn opss; c_fault := false |} sched in
+  forall i t ops, nth_error (c_threads c) i = Some t -> nth_error opss i = Some ops ->
+    t_cur t = None -> t_rest t = [] -> rev (t_done t) = map (fresh_result E fuel) ops.
+Proof.
+  intros fuel nre rsizes bsizes opss sched c i t ops N N0 TC TR.
+  destruct (interleaving_eq_sequential E WF fuel nre rsizes bsizes opss sched i t N) as (ops' & dn & cur & A & B & C & D).
+  rewrite N0 in A. injection A as A. rewrite <- A in B. rewrite (D TC), TR in B. cbn in B. rewrite app_nil_r in B.
+  rewrite B. exact C.
+Qed.
+
+Theorem shared_state_ok : forall fuel nre rsizes bsizes opss sched,
+  gstate_ok E (c_g (run_sched E fuel {| c_g := gstate0 nre rsizes bsizes; c_threads := map spawn opss;
+                                       c_fault := false |} sched)).
+Proof. intros. apply (run_sched_inv E WF fuel opss sched _ (init_cinv fuel nre rsizes bsizes opss)). Qed.
+
+End Final2.
